@@ -3364,11 +3364,12 @@ impl Zeroconf {
                     continue;
                 }
 
-                add_answer_of_service(
+                add_answer_of_service_as(
                     &mut out,
                     &msg,
                     question.entry_name(),
                     service,
+                    dns_registry.resolve_name(service.get_hostname()),
                     qtype,
                     intf_addrs,
                 );
@@ -4041,11 +4042,27 @@ impl Zeroconf {
 }
 
 /// Adds one or more answers of a service for incoming msg and RR entry name.
+#[cfg(test)]
 fn add_answer_of_service(
     out: &mut DnsOutgoing,
     msg: &DnsIncoming,
     entry_name: &str,
     service: &ServiceInfo,
+    qtype: RRType,
+    intf_addrs: Vec<IpAddr>,
+) {
+    let hostname = service.get_hostname();
+    add_answer_of_service_as(out, msg, entry_name, service, hostname, qtype, intf_addrs);
+}
+
+/// Adds the answers of `service` for `qtype`. `hostname` is the host name the service
+/// currently uses, which differs from the registered one after a conflict.
+fn add_answer_of_service_as(
+    out: &mut DnsOutgoing,
+    msg: &DnsIncoming,
+    entry_name: &str,
+    service: &ServiceInfo,
+    hostname: &str,
     qtype: RRType,
     intf_addrs: Vec<IpAddr>,
 ) {
@@ -4059,7 +4076,7 @@ fn add_answer_of_service(
                 service.get_priority(),
                 service.get_weight(),
                 service.get_port(),
-                service.get_hostname().to_string(),
+                hostname.to_string(),
             ),
         );
     }
@@ -4079,7 +4096,7 @@ fn add_answer_of_service(
     if qtype == RRType::SRV {
         for address in intf_addrs {
             out.add_additional_answer(DnsAddress::new(
-                service.get_hostname(),
+                hostname,
                 ip_address_rr_type(&address),
                 CLASS_IN | CLASS_CACHE_FLUSH,
                 service.get_host_ttl(),
